@@ -31,8 +31,9 @@ def _b_configs(tier):
     out = []
     for d in ('generic', 'PostgreSQL', 'MySQL', 'Oracle', 'SQLite'):
         for nowait, skip in ((False, False), (True, False), (False, True)):
-            for limit in (False, True):
-                out.append(dict(dialect=d, nowait=nowait, skip_locked=skip, limit=limit))
+            for limit in (False, True, 'with offset'):
+                for order in (False, True):
+                    out.append(dict(dialect=d, nowait=nowait, skip_locked=skip, limit=limit, order=order))
     return out
 
 
@@ -48,23 +49,29 @@ def _b_case(cfg, values):
     def call():
         cls, prov = _builder(cfg['dialect'])
         ast = ['SELECT_FOR_UPDATE', cfg['nowait'], cfg['skip_locked'], ['ALL', ['COLUMN', 'T', 'a']], ['FROM', ['T', 'TABLE', 'tbl']], ['WHERE', ['EQ', ['COLUMN', 'T', 'a'], ['VALUE', 1]]]]
-        if cfg['limit']: ast.append(['LIMIT', 2])
+        if cfg['order']: ast.append(['ORDER_BY', ['DESC', ['COLUMN', 'T', 'b']], ['COLUMN', 'T', 'a']])
+        if cfg['limit']: ast.append(['LIMIT', 2] if cfg['limit'] is True else ['LIMIT', 2, 3])
         b = cls(prov, ast)
         plain = cls(prov, ['SELECT'] + ast[3:])
-        return b.sql, plain.sql
+        rowids = cls(prov, ['SELECT', ['ALL', ['AS', ['COLUMN', 'T', 'ROWID'], 'row-id']]] + ast[4:]) if cfg['dialect'] == 'Oracle' else None
+        return b.sql, plain.sql, rowids and rowids.sql
     return Case(call, {}, [])
 
 
 def _b_spec(cfg, i, path):
     if path.outcome != 'ret': return False
-    sql, plain = path.value
+    sql, plain, rowids = path.value
     if cfg['dialect'] == 'SQLite': return sql == plain                 # no row locks: the lock is BEGIN IMMEDIATE (see locking_lookup)
     tail = 'FOR UPDATE' + (' NOWAIT' if cfg['nowait'] else '') + (' SKIP LOCKED' if cfg['skip_locked'] else '')
     s = sql.rstrip()
     if not s.endswith(tail): return False
     head = s[:-len(tail)].rstrip()
     if cfg['dialect'] == 'Oracle' and cfg['limit']:
-        return 'ROWNUM' in head and head.count('FOR UPDATE') == 0
+        # ROWNUM windows cannot be locked: the rows are picked by ROWID out of the (ordered) window query, and the ORDER BY is repeated on the outer block, which alone orders the result
+        norm = lambda t: ' '.join(t.split())
+        want = 'SELECT "T"."a" FROM "tbl" "T" WHERE "T"."ROWID" IN ( ' + norm(rowids).replace('SELECT t.* FROM', 'SELECT t."row-id" FROM', 1) + ' )'
+        if cfg['order']: want += ' ORDER BY "T"."b" DESC, "T"."a"'
+        return norm(head) == want and 'ROWNUM' in head
     return head == plain.rstrip()                                     # the same rows as the plain query, plus the lock request
 
 
@@ -352,3 +359,10 @@ CONTRACTS = [
              [('serializable_set_inside_a_non_autocommit_transaction', _pg_spec)], allowed_exc=(Exception,)),
     Contract('SessionCache.commit', 'pony.orm.core:SessionCache.commit', [dict()], _cm_case, [('locked_set_cleared_when_locks_are_released', _cm_spec)], allowed_exc=(Fault,)),
 ]
+
+
+def _share_cache_key_contract():
+    # a locking query must not be answered from what was built or fetched for its non-locking form: for_update / nowait / skip_locked are fields of the SQL key (contract of C05)
+    from contracts import c05
+    CONTRACTS.extend(c for c in c05.CONTRACTS if c.id == 'Query._construct_sql_and_arguments')
+_share_cache_key_contract()
